@@ -21,11 +21,11 @@ CONFIG = {
     "mult_search": 3,
     "refuted": ["C16_list_walk_unguarded_refuted (snapshot code, repaired by fix 00dc9de)", "C16_swagger_snapshot_refuted (snapshot code, repaired by fix d8c3aa8)",
                 "C16_swagger_nil_response_snapshot_refuted (snapshot code, repaired by fix 7b835ba)", "C16_path_law_collision_refuted, C16_strcase_collision_refuted (class of names outside the law: fooId vs foo_id)"],
-    "partial": ["C16_full (the composed chain theorem) covers packages of services with any schema graph, every field type, methods with and without response body, and list methods (over recursive item objects too); outside it: topics (only the naming dispatch C16_service_suffixes), entities (walkSourceSchemas / StateEntity.ToJ5Proto not modelled; exercised by the oracle and the correspondence only)"],
+    "partial": ["C16_full (the composed chain theorem) covers packages of services with any schema graph, every field type, methods with and without response body, list methods (over recursive item objects too) and topics; outside it: entities (walkSourceSchemas / StateEntity.ToJ5Proto not modelled; exercised by the oracle and the correspondence only)"],
 }
 
 MANIFEST = {
     "text": "Theorems over a Gallina model of the downstream chain (addStructure/buildMethod, the {snake} <-> :jsonName path mapping, fillRequest, collectPackageRefs, walkSchemaFields, convertSchema arm coverage): buildMethod accepts what the compiler emits for every declared method and recovers the declared verb and path (for every ToSnake injective on the request's property names; refuted for colliding names); fillRequest partitions the request properties into path/query/body for every verb, path and property list; the reference walk with a visited set terminates within fuel = number of schemas + 1 on every schema graph incl. cyclic ones and returns exactly the reachable schemas; the list walk terminates with the recursion guard and provably diverges without it; every alternative of j5.schema.v1.Field (list read from the generated code) has a convertSchema arm (list read from convert.go). Tied to the code by regenerated tables and by running the real chain compile -> PrintFile -> ReadFSImage -> APIFromImage -> APIFromSource -> J5 JSON -> BuildSwagger -> json.Marshal on generated packages (recursive objects, every field type in request/response/path position, list methods, methods without response, topics, entities) in crash-isolated workers, plus mutated service files, hand-built descriptors and hand-built source APIs with cyclic graphs.",
-    "note": "Level: proof. The composed chain theorem C16_full is proved for packages of services (any graph, every field type, with/without response, list methods); topics and entities are covered by component theorems / oracle only (partial). Trusted: Coq kernel, translator, harness incl. its descriptor/schema abstraction; protocompile, protodesc, j5schema reflection, path.Join and the JSON encoders are modelled-not-verified. Six defects of the snapshot on this path were repaired by fix: commits (walkSchemaFields recursion, five missing swagger arms, nil response body in swagger/jdef export, nil response in buildListRequest, empty type name for self-referencing fields in protoprint, json_name not printed by protoprint).",
+    "note": "Level: proof. The composed chain theorem C16_full is proved for packages of services (any graph, every field type, with/without response, list methods, topics); entities are covered by the oracle and the correspondence only (partial). Trusted: Coq kernel, translator, harness incl. its descriptor/schema abstraction; protocompile, protodesc, j5schema reflection, path.Join and the JSON encoders are modelled-not-verified. Six defects of the snapshot on this path were repaired by fix: commits (walkSchemaFields recursion, five missing swagger arms, nil response body in swagger/jdef export, nil response in buildListRequest, empty type name for self-referencing fields in protoprint, json_name not printed by protoprint).",
     "technique": "Rocq/Coq proof (DFS invariant with visited set, list partition, string split/join inverse laws) + regenerated switch-arm tables with computed coverage lemma + in-Coq differential correspondence on the real chain",
 }
